@@ -110,3 +110,44 @@ Theorem C07_gen_reconcile_lca_eq :
 Proof. exact @gen_reconcile_lca_eq. Qed.
 Print Assumptions C07_gen_reconcile_lca_eq.
 
+
+(* ---- closing corollaries added after the independent review (DESIGN 10.3): the lemmas are in Proofs/ReviewC*.v ---- *)
+
+From SR Require Import Proofs.ReviewCLcaBound. Import ReviewCLcaBound.PartE.
+
+Theorem C07_c07_spe_needed :
+  0 <= c_dup c1 /\
+       0 <= c_floss c1 /\
+       0 <= c_sloss c1 /\
+       c_hgt c1 = PInf /\
+       c_spe c1 > c_dup c1 + 2 * c_floss c1 /\
+       leaves_ok S1 O1 /\
+       valid_rec S1 O1 r1 /\
+       no_transfer r1 /\
+       lca_rec O1 = rl1 /\
+       cost c1 O1 r1 = Fin 5 /\
+       cost c1 O1 (lca_rec O1) = Fin 10 /\
+       ext_ltb (cost c1 O1 r1) (cost c1 O1 (lca_rec O1)) = true /\
+       ~ ele (cost c1 O1 (lca_rec O1)) (cost c1 O1 r1).
+Proof. exact @c07_spe_needed. Qed.
+Print Assumptions C07_c07_spe_needed.
+
+Theorem C07_c07_optimal_without_spe_bound_false :
+  ~
+       (forall (c : costs) (S : stree) (O : otree) (r : rtree),
+        0 <= c_dup c ->
+        0 <= c_floss c ->
+        leaves_ok S O ->
+        valid_rec S O r -> no_transfer r -> ele (cost c O (lca_rec O)) (cost c O r)).
+Proof. exact @c07_optimal_without_spe_bound_false. Qed.
+Print Assumptions C07_c07_optimal_without_spe_bound_false.
+
+Theorem C07_c07_cherry_parametric :
+  forall c : costs,
+       c_dup c + 4 * c_floss c < c_spe c ->
+       cost c O1 r1 = Fin (c_dup c + 4 * c_floss c) /\
+       cost c O1 (lca_rec O1) = Fin (c_spe c) /\
+       ext_ltb (cost c O1 r1) (cost c O1 (lca_rec O1)) = true.
+Proof. exact @c07_cherry_parametric. Qed.
+Print Assumptions C07_c07_cherry_parametric.
+
